@@ -22,7 +22,7 @@ def seq_zstd(case, failing):
     """Sequential labelled compression with a zstd label-store configuration writes a zstd-compressed stream
     as the FINAL .labels file (StoreLabelsConf::new_storage is used directly for the final path)."""
     if case.get("path", "").startswith("comp_labeled") and case.get("zstd") == "1":
-        return ("property=C07 comp_labeled_graph/comp_labeled_lender with BitStreamStoreLabelsConf::zstd(): the final "
+        return ("comp_labeled_graph/comp_labeled_lender with BitStreamStoreLabelsConf::zstd(): the final "
                 ".labels file is a zstd frame, so BitStreamLabelingSeq/BitStreamLabeling read wrong labels or panic "
                 "(only par_comp_labeled decompresses parts while concatenating)")
     return None
